@@ -132,6 +132,12 @@ func (db *MultiBucketBackend) ListBucket(bucket string, prefix *gofakes3.Prefix,
 }
 
 func (db *MultiBucketBackend) getBucketWithFilePrefixLocked(bucket string, prefixPath, prefixPart string) (*gofakes3.ObjectList, error) {
+	if prefixPath != "" && !validObjectName(prefixPath) {
+		// No stored key can start with such a prefix, and resolving it as a
+		// directory would list some other directory instead:
+		return gofakes3.NewObjectList(), nil
+	}
+
 	bucketPath := path.Join(bucket, prefixPath)
 
 	dirEntries, err := afero.ReadDir(db.bucketFs, filepath.FromSlash(bucketPath))
